@@ -146,6 +146,9 @@ pub fn eval_par(case: &ParCase, obs: &mut CaseObs, prop: &str, known: &KnownFind
     if rep.skipped_notifications > 0 {
         obs.label("AfterNotifyAll-without-real-notification");
     }
+    if rep.silent_parks > 0 {
+        obs.label("worker-slept-outside-of-the-hooks");
+    }
     obs.label(format!(
         "decisions:{}",
         match rep.choices.len() {
@@ -398,6 +401,11 @@ fn eval_stress(c: &StressCase, obs: &mut CaseObs, prop: &str) -> Verdict {
             return Verdict::HarnessError("real-thread stress run did not return within 60 s (inconclusive: wall-clock watchdog)".into());
         }
     };
+    if out.watchdog {
+        // nothing happened for 30 s of wall-clock time: a time limit is never a verdict (the scheduled parts decide
+        // hangs deterministically)
+        return Verdict::HarnessError("a real-thread run did not return and was abandoned by the wall-clock watchdog (inconclusive)".into());
+    }
     obs.label(format!("stress-threads:{}", c.threads.min(16)));
     obs.nontrivial = out.explored >= 3;
     match prop {
